@@ -412,10 +412,10 @@ func (p *parser) parseSwitchStatement() ast.Statement {
 		p.scope.inSwitch = inSwitch
 	}()
 
-	for index := 0; p.token != token.EOF; index++ {
-		if p.token == token.RIGHT_BRACE {
-			node.RightBrace = p.idx
-			p.next()
+	for index := 0; ; index++ {
+		if p.token == token.RIGHT_BRACE || p.token == token.EOF {
+			// At the end of the input this reports the missing brace.
+			node.RightBrace = p.expect(token.RIGHT_BRACE)
 			break
 		}
 
